@@ -18,9 +18,13 @@ META = {
             'rejected-first}); plus histories in which half of the writes '
             'meet one injected database fault (deadlock without rollback, '
             'generic error, lost connection at a random SQL event) - '
-            'afterwards consumer rows and allocation rows must still match'
+            'afterwards consumer rows and allocation rows must still match; '
+            'plus single requests creating / rewriting / emptying N '
+            'consumers at once for N around 32, 50, 64, 100, 128 (thorough: '
+            'up to 1001)'
             ' plus a concurrent part: the C05-C07 scenario catalogue (and provider-tree races) run under the transaction-granularity scheduler, the same oracle evaluated on every committed state / committing step of every explored interleaving',
     'floors': {'concurrent_schedules': 100, 'faulted_requests': 100,
+               'wide_requests_judged': 50,
                'attribute_checks': 100, 'rejected_first_writes': 5,
                'null_generation_probes_accepted': 5},
     'assumptions': ['SQLite backend', 'sequential histories + committed-state sequences of '
@@ -47,6 +51,9 @@ def plan(tier, seed, scale):
                               20 if tier == 'quick' else 100,
                               extra={'steps': 60 if tier == 'quick' else 80})
     histrun.plan_faulted(shards, tier, seed, scale)
+    # many consumers written / emptied by ONE request
+    shards.append({'seed': seed, 'first': 0, 'count': 1, 'tier': tier,
+                   'hashseed': 0, 'wide': True})
     n = max(1, int(len(CONC) * min(scale, 1)))
     for sh in conc.plan_scenarios(n, tier, seed, per=max(1, (n + 7) // 8)):
         sh['conc'] = True
@@ -90,11 +97,87 @@ def conc_shard(spec, res):
     conc.run_invariants('C12', CONC, spec, res, at_end=at_end)
 
 
+def wide_shard(spec, res):
+    """one POST /allocations (or POST /reshaper) that creates, rewrites or
+    empties N consumers at once, N around every plausible batch size: after
+    each request the consumer records are exactly the consumers holding
+    allocations"""
+    import uuid as uuidlib
+    from pv.client import Req
+    svc = histrun.Service()
+    c = svc.client
+    P = '99999999-0000-4000-8000-000000000001'
+    try:
+        svc.fresh()
+        assert c.call('POST', '/resource_providers',
+                      {'name': 'big', 'uuid': P}).status == 200
+        assert c.call('PUT', '/resource_providers/%s/inventories' % P, {
+            'resource_provider_generation': 0, 'inventories': {
+                'VCPU': {'total': 100000}, 'DISK_GB': {'total': 100000}}}
+        ).status == 200
+        sizes = [31, 32, 33, 49, 50, 51, 64, 65, 99, 100, 101, 128, 129]
+        if spec.get('tier') == 'thorough':
+            sizes += [199, 200, 201, 255, 256, 257, 499, 500, 501, 999,
+                      1000, 1001]
+        for n in sizes:
+            cons = [str(uuidlib.UUID(int=(n << 32) + i)) for i in range(n)]
+
+            def body(amount, gen, rc='VCPU'):
+                return {k: {'allocations': {P: {'resources': {rc: amount}}}
+                            if amount else {},
+                            'project_id': 'wide-pj', 'user_id': 'wide-us',
+                            'consumer_generation': gen,
+                            'consumer_type': 'INSTANCE'} for k in cons}
+
+            def judge(what, resp, want_rows):
+                d = svc.dump()
+                res.count('wide_requests_judged')
+                res.seen('wide', what, n)
+                wit = {'request': '%s naming %d consumers' % (what, n),
+                       'status': resp.status}
+                if resp.status != 204:
+                    res.violation('C12|wide-request-refused|%s' % what,
+                                  '%s for %d consumers answered %d: %s' % (
+                                      what, n, resp.status,
+                                      resp.body[:200]), wit)
+                    return
+                probs = state_problems(d)
+                mine = [c_ for c_ in d.consumers if c_ in set(cons)]
+                if probs or len(mine) != want_rows:
+                    res.violation(
+                        'C12|%s|wide|%s' % (
+                            probs[0][0] if probs else 'consumer-count',
+                            what),
+                        '%s for %d consumers: %d of their records exist '
+                        '(expected %d); %s' % (what, n, len(mine), want_rows,
+                                               probs[:3]), wit)
+            judge('create by POST', c.send(Req(
+                'POST', '/allocations', '1.39', body(1, None))), n)
+            judge('rewrite by POST', c.send(Req(
+                'POST', '/allocations', '1.39', body(2, 1, 'DISK_GB'))), n)
+            judge('empty by POST', c.send(Req(
+                'POST', '/allocations', '1.39', body(0, 2))), 0)
+            judge('create again by POST', c.send(Req(
+                'POST', '/allocations', '1.39', body(1, None))), n)
+            g = svc.dump().providers[P]['generation']
+            r = c.send(Req('POST', '/reshaper', '1.39', {
+                'inventories': {P: {'resource_provider_generation': g,
+                                    'inventories': {
+                                        'VCPU': {'total': 100000},
+                                        'DISK_GB': {'total': 100000}}}},
+                'allocations': body(0, 1)}, roles='service'))
+            judge('empty by reshaper', r, 0)
+    finally:
+        svc.close()
+
+
 def run_shard(spec, res):
     if spec.get('conc'):
         return conc_shard(spec, res)
     if spec.get('faulted'):
         return fault_shard(spec, res)
+    if spec.get('wide'):
+        return wide_shard(spec, res)
     import random
     crng = random.Random('conf/%s/%s' % (spec['seed'], spec['first']))
     pp = 'incomplete-pj-%d' % crng.randrange(1000)
